@@ -350,6 +350,12 @@ def specs(tier, seed):
                 out.append({"tree": "fi_hedge", "stack": {"gate": g}, "fi_weights": w, "data": data, "alpha": "exact", "late": False, "integer": False, "capital": 0.0, "rng": 0, "fee": None, "spread": None})
                 out.append({"tree": "fi_hedge", "stack": {"gate": g}, "fi_weights": w, "data": data, "alpha": "decimal", "late": False, "integer": False, "capital": 0.0, "rng": 0, "fee": "propdec", "spread": 0.25})
                 out.append({"tree": "fi_hedge", "stack": {"gate": g}, "fi_weights": w, "plain_cost_index": True, "data": data, "alpha": "exact", "late": False, "integer": False, "capital": 0.0, "rng": 0, "fee": None, "spread": None})
+    # price levels in the thousands, whole units, nested trees (paper-trading copies): whatever a node's set-up
+    # derives from the whole table (a maximum, a mean) moves with the quotes after the cut
+    for tree in ("nested", "deep", "nested_sel"):
+        for g in ("daily", "weekly"):
+            for fee in (None, "propdec"):
+                out.append({"tree": tree, "stack": {"gate": g}, "data": "d12", "alpha": "exact", "late": False, "integer": True, "capital": 1e6, "rng": 0, "fee": fee, "spread": None, "price_scale": 512.0})
     if tier != "quick":
         more = [s for s in R.family("thorough", seed) if s["tree"] != "flat" or s["data"] == "d6"]
         out += more[::8]
